@@ -403,46 +403,7 @@ pub fn checked_build(ctx: &Ctx, spec: &NodeSpec) -> BuildObs {
     canon_memo.borrow_mut().clear();
     let mut failures = Vec::new();
 
-    // ---- no panic, verdict per call
     let is_cli = matches!(spec.kind, NodeKind::Cli { .. });
-    match run.verdict() {
-        Err(e) => failures.push(fail("no-panic", "", e, &[])),
-        Ok(_) => {
-            if is_cli {
-                let want_fail = call_should_fail.first().copied().unwrap_or(false);
-                let got_fail = run.results.first().map(|r| r.status != "ok").unwrap_or(true);
-                if want_fail != got_fail {
-                    failures.push(fail(
-                        "ok-iff-all-built",
-                        "",
-                        format!("cli exit {:?}, expected failure={want_fail}; stderr: {}", run.exit_code, run.stderr.lines().last().unwrap_or("")),
-                        &[("entry", "cli".into())],
-                    ));
-                }
-            } else {
-                for (ci, want_fail) in call_should_fail.iter().enumerate() {
-                    let got = run.results.get(ci);
-                    let got_fail = got.map(|r| r.status != "ok").unwrap_or(true);
-                    if *want_fail != got_fail {
-                        let why = match &vs[ci].plan {
-                            CallPlan::Reject { why } => format!("model rejects: {why}"),
-                            _ => "model: a processed file fails".to_string(),
-                        };
-                        let mut fc: Vec<(&'static str, String)> = vec![("expected", if *want_fail { "err".into() } else { "ok".into() })];
-                        if exps.iter().any(|e| e.call == ci && e.planned.degenerate_stem) {
-                            fc.push(("name", "stem-consists-only-of-dots".to_string()));
-                        }
-                        let mut fl: Vec<String> = exps.iter().filter(|e| e.call == ci && e.in_prefix).map(|e| format!("{}/{}", e.tclass, e.pre.name())).collect();
-                        fl.sort();
-                        fl.dedup();
-                        fc.push(("files", fl.join(",")));
-                        failures.push(fail("ok-iff-all-built", "", format!("call {ci}: got {:?}, expected failure={want_fail} ({why})", got), &fc));
-                    }
-                }
-            }
-        }
-    }
-
     // ---- per-file invariants
     let mutated: Vec<(String, &crate::node::TraceLine)> = run
         .mutating()
@@ -452,7 +413,12 @@ pub fn checked_build(ctx: &Ctx, spec: &NodeSpec) -> BuildObs {
     let mut files_obs = Vec::new();
     let mut transitions = Vec::new();
     let mut allowed: BTreeSet<String> = BTreeSet::new();
+    // a file that goes wrong stops the call: files after it were never reached, and judging
+    // them would only repeat the first failure under other names
+    let mut call_first_failure_seen: BTreeSet<usize> = BTreeSet::new();
     for e in &exps {
+        let nfail_before = failures.len();
+        let judged = !call_first_failure_seen.contains(&e.call);
         let p = &e.planned;
         let out_abs = root.join(&p.out_rel);
         let post_bytes = std::fs::read(&out_abs).ok();
@@ -481,9 +447,11 @@ pub fn checked_build(ctx: &Ctx, spec: &NodeSpec) -> BuildObs {
         };
         if e.in_prefix {
             allowed.insert(canon_out.clone());
-            if vs[e.call].report {
-                allowed.insert(canon_rel(&root, &p.report_rel));
-            }
+        }
+        if e.in_prefix && vs[e.call].report {
+            allowed.insert(canon_rel(&root, &p.report_rel));
+        }
+        if e.in_prefix && judged {
             transitions.push((tclass.to_string(), pre.name().to_string(), post.name().to_string()));
             if collided {
                 probes.collisions_skipped += 1;
@@ -564,6 +532,9 @@ pub fn checked_build(ctx: &Ctx, spec: &NodeSpec) -> BuildObs {
                 }
             }
         }
+        if failures.len() > nfail_before {
+            call_first_failure_seen.insert(e.call);
+        }
         // path-shape probes
         if p.rel.starts_with("src/") || p.rel.contains("/src/") {
             let o = &p.out_rel;
@@ -574,6 +545,47 @@ pub fn checked_build(ctx: &Ctx, spec: &NodeSpec) -> BuildObs {
             }
         }
         files_obs.push(FileObs { planned: p.clone(), forced: e.forced.clone(), pre, pre_id: e.pre_id.clone(), post });
+    }
+
+    // ---- no panic, verdict per call (after the per-file pass, so that the cause key can
+    // name the first file that went wrong)
+    let first_bad = |ci: usize| -> String {
+        files_obs
+            .iter()
+            .zip(exps.iter())
+            .filter(|(_, e)| e.call == ci && e.in_prefix)
+            .find(|(o, e)| if e.fails { o.post != OutStatus::Absent } else { o.post != OutStatus::Current })
+            .map(|(o, e)| format!("{}/{}", e.tclass, o.pre.name()))
+            .unwrap_or_else(|| "-".to_string())
+    };
+    match run.verdict() {
+        Err(e) => {
+            let where_ = e.rsplit(" @ ").next().map(|l| l.split(':').next().unwrap_or("").rsplit('/').next().unwrap_or("").to_string()).unwrap_or_default();
+            failures.push(fail("no-panic", "", e.clone(), &[("where", where_)]))
+        }
+        Ok(_) => {
+            for (ci, want_fail) in call_should_fail.iter().enumerate() {
+                let got = if is_cli { run.results.first() } else { run.results.get(ci) };
+                let got_fail = got.map(|r| r.status != "ok").unwrap_or(true);
+                if *want_fail != got_fail {
+                    let why = match &vs[ci].plan {
+                        CallPlan::Reject { why } => format!("model rejects: {why}"),
+                        _ if *want_fail => "model: a processed file fails".to_string(),
+                        _ => "model: every processed file builds".to_string(),
+                    };
+                    let mut fc: Vec<(&'static str, String)> = vec![("expected", if *want_fail { "err".into() } else { "ok".into() })];
+                    if exps.iter().any(|e| e.call == ci && e.planned.degenerate_stem) {
+                        fc.push(("name", "stem-consists-only-of-dots".to_string()));
+                    }
+                    if is_cli {
+                        fc.push(("entry", "cli".into()));
+                    }
+                    fc.push(("files", first_bad(ci)));
+                    let msg = got.map(|r| format!("{}: {}", r.status, r.msg.lines().last().unwrap_or(""))).unwrap_or_else(|| "no result".into());
+                    failures.push(fail("ok-iff-all-built", "", format!("call {ci}: got [{msg}], expected failure={want_fail} ({why})"), &fc));
+                }
+            }
+        }
     }
 
     // ---- mutated set ⊆ allowed outputs (+ their ancestor directories)
